@@ -302,3 +302,26 @@ MANIFEST_TEXT["C16"] = {
             "event that the salts are the queue prefix in disclosure order with one entry per disclosure (NumSd(MarkRoot(U,S))), reproducibility of a second identical run, and all C01/C05 clauses "
             "(so a spacing rewrite that changes a value shows up as issue.exact / verify.view failures).",
     "note": _NOTE, "technique": "TLA+ model of the salt queue (TLC) + trace validation of the mock_salts build"}
+
+PLANS["C07"] = P(
+    "exploration",
+    ["total"],
+    [{"module": "MC_malformed", "quick": "MC_malformed_quick.cfg", "thorough": "MC_malformed.cfg", "timeout": {"quick": 300, "thorough": 900}}],
+    [{"driver": "fuzz", "args": {"n": 60}}, {"driver": "replay", "scn": "MC_malformed", "args": {"n": 500, "matrix": 0}},
+     {"driver": "rich", "args": {"n": 400, "depth": 6, "arbsel": 0.7, "xfmt": 1}}],
+    [{"driver": "fuzz", "args": {"n": 2500}}, {"driver": "replay", "scn": "MC_malformed", "args": {"n": 100000, "matrix": 0}},
+     {"driver": "rich", "args": {"n": 20000, "depth": 8, "arbsel": 0.7, "xfmt": 1}}],
+    required={"total": 20000},
+    nontrivial_event="Call",
+    rule="cases = calls of the four public entry points: random byte / ASCII / envelope-shaped strings (<= 2 KB) in both formats; structural mutations of valid SD-JWTs (parts dropped, "
+         "duplicated, swapped, truncated; every top-level payload member replaced by 10 wrong JSON types or removed, re-signed with the issuer key or not); validly signed payloads whose _sd / ... "
+         "reference disclosures of arbitrary JSON shape from arbitrary container kinds; the 2441 structured deviation sets of MC_malformed; arbitrary selection JSON on full and narrowed "
+         "holders; issuer inputs (every non-object JSON kind, nesting 64, random path strings, any Unicode scalar). Every outcome must be ok or err; a crash or hang of the driver process is "
+         "attributed to the call in flight. distinct = distinct fuzz rounds / cases that reached the entry point with a decodable envelope (conservative)",
+    assumptions=["catch_unwind observes panics; aborts and hangs are observed by the orchestrator through the driver's exit status and its in-flight side file"],
+)
+MANIFEST_TEXT["C07"] = {
+    "text": "Absence of panics is a property of the Rust code paths, not of the design: the specification contributes the structured enumeration (MC_malformed's position x deviation classes, "
+            "replayed) and the totality clause (every action of the specification returns ok or err; TLC checks `total` on every event of every driver); the judgement itself is an observation "
+            "under catch_unwind plus process supervision. Level exploration.",
+    "note": _NOTE, "technique": "TLA+-guided structured enumeration + randomized exploration, outcomes validated by TLC (totality clause)"}
